@@ -111,6 +111,33 @@ def _state_stores(cf, f, memo_names=()):
   return out
 
 
+def _only_none_reaches(ctx, dnode, store, name, val):
+  """Every feasible path entry -> store on which the last definition of `name` is at `dnode` asserts that the value is
+  None (`name is None`, `not name is not None`, the same on the setter's parameter)."""
+  from mmsa import pathcond
+  g, rd = ctx.g, ctx.rd
+  try:
+    paths = list(g.enumerate_paths(g.entry, lambda n_: n_ is store, no_exc, max_paths=500, back_limit=0))
+  except Exception:
+    return False
+  seen = False
+  for path in paths:
+    pf = pathcond.PathFacts(path, rd, keep=(val,))
+    last = pf.env.get(name)
+    if not pf.feasible or last is None or last[0].node is not dnode:
+      continue
+    seen = True
+    for conj in pf.dnf:
+      is_none = False
+      for e, t in conj:
+        txt = norm(e)
+        if (t and txt in ('%s is None' % name, '%s is None' % val)) or ((not t) and txt in ('%s is not None' % name, '%s is not None' % val)):
+          is_none = True
+      if not is_none:
+        return False
+  return seen
+
+
 def analyse_class(repo, rep, class_q, floors=None, prefix=''):
   """Cache-invalidation discipline of one class. floors: dict with minimal counts
   (memo, writers, pairs, cached) or None for classes that may have no memo field."""
@@ -174,7 +201,14 @@ def analyse_class(repo, rep, class_q, floors=None, prefix=''):
         if bad:
           break
       rep.analysed['paths'] += 1
-      if bad:
+      if bad and len(f.params) <= 1 and f.kind in ('getter', 'method'):
+        # a function without parameters cannot install new input: what it stores is derived from the state that is
+        # already there (a cache kept in a form the memo recogniser does not know)
+        fld, snode, p1, p2 = bad
+        rep.undecided(R('R2/must-reset'), '%s: self.%s vs self.%s' % (f.qualname, fld, m),
+                      'self.%s is written by the parameterless %s without resetting self.%s: the field is derived state in a form the memo recogniser does not know, not an input' % (fld, f.name, m),
+                      f.loc(snode.ast))
+      elif bad:
         fld, snode, p1, p2 = bad
         via = ' -> '.join('L%d' % n.lineno for n, _ in (p1 + p2[1:]) if n.lineno)
         rep.violation(
@@ -342,6 +376,8 @@ def r5_inputs_copied(repo, rep, class_q):
           cands = [(d.node, d.value) for d in ctx.rd.defs_at(node, rhs.id) if d.how == 'assign' and d.value is not None and not classfx.is_none(d.value)]
         for dn, dv in cands:
           e = ctx.rd.expand(dn, dv, keep=(val,))[0]
+          if isinstance(rhs, ast.Name) and dn is not node and _only_none_reaches(ctx, dn, node, rhs.id, val):
+            continue          # this definition reaches the store only on paths where the value is None
           # only stores of the series itself (array-valued), not of scalars derived from it
           if not any(isinstance(x, ast.Name) and x.id == val for x in ast.walk(e)):
             continue
